@@ -85,6 +85,27 @@ def run_all ():
   inv2 = {'K.f': ['self', 'x', 'big'], '<module>': [], '<class K>': []}
   out = normed("class K:\n  def f(self, x):\n    big = x > 3\n    if big: return 1\n    return 2\n", inv2)
   expect('norm leaves reference locals alone', 'if big' in out)
+  # N0 alpha-normalisation: a pure renaming of locals is undone, anything else is left alone; table loops and struct objects
+  ref_src = "class K:\n  def f(self, x):\n    total = 0\n    for item in x:\n      total += item\n    return total\n"
+  sk = norm.module_skeletons(ast.parse(ref_src))
+  def alpha (src):
+    t = ast.parse(src); saved = norm._SKEL; norm._SKEL = {'m': sk}
+    try: n_ = norm.alpha_rename(t, 'm')
+    finally: norm._SKEL = saved
+    return n_, ast.unparse(t)
+  n_, out = alpha("class K:\n  def f(self, x):\n    acc = 0\n    for e in x:\n      acc += e\n    return acc\n")
+  expect('alpha: renamed locals get the reference names back', n_ == 1 and 'total += item' in out and 'acc' not in out)
+  n_, out = alpha("class K:\n  def f(self, x):\n    acc = 0\n    for e in x:\n      acc += e\n    return e\n")
+  expect('alpha: a different shape is left alone', n_ == 0 and 'acc' in out)
+  n_, out = alpha("class K:\n  def f(self, x):\n    acc = 0\n    for acc in x:\n      acc += acc\n    return acc\n")
+  expect('alpha: a renaming that merges two locals is left alone', n_ == 0)
+  inv3 = {'K.f': ['self', 'x'], '<module>': [], '<class K>': []}
+  out = normed("import struct\nHDR = struct.Struct('!BBH')\nclass K:\n  def f(self, x):\n    return HDR.unpack_from(x, 4)\n", inv3)
+  expect('norm rewrites precompiled struct objects', "struct.unpack_from('!BBH', x, 4)" in out)
+  out = normed("class K:\n  T = ((1, 'a'), (2, 'b'))\n  def f(self, x):\n    if len(x) < 2: return 0\n    for v, (k, s) in zip(x, self.T):\n      if v != k: return s\n    return None\n", inv3)
+  expect('norm unrolls a loop over a new literal table', 'x[0] != 1' in out and "x[1] != 2" in out and 'zip' not in out)
+  out = normed("class K:\n  T = ((1, 'a'), (2, 'b'))\n  def f(self, x):\n    for v, (k, s) in zip(x, self.T):\n      if v != k: return s\n    return None\n", inv3)
+  expect('norm keeps a table loop when the sequence length is not established', 'zip' in out)
   # ---- evaluation along paths ----------------------------------------------------------------------------------
   class _M(object):
     name = 'm'; short = 'm'
